@@ -45,7 +45,8 @@ def _fd(draw):
                 phi=draw(st.sampled_from(["sin", "exp", "cubic", "linear"])),
                 x=draw(st.lists(st.sampled_from([0.0, 1e-8, 1.0, -1.0, 3.0, 1e3, -0.5]), min_size=n, max_size=n)),
                 base_order=draw(st.integers(2, 8)),
-                tol=draw(st.sampled_from([None, 1e-6, 1e-10])), flat=draw(st.booleans()))
+                tol=draw(st.sampled_from([None, 1e-6, 1e-10])), flat=draw(st.booleans()),
+                adaptive=draw(st.sampled_from([True, True, True, False])))
 
 
 @st.composite
@@ -108,6 +109,16 @@ def _check_fd(case):
     sig = "{}:{}".format("flat" if case["flat"] else "tensor", phi)
     attrs = dict(flat=case["flat"], phi=phi)
     try:
+        if not case.get("adaptive", True):
+            # fixed-depth Richardson mode: steps are scaled by the component value there; components that are tiny but
+            # non-zero are outside what that mode resolves (observed on the unchanged tree), so they are rounded away
+            x = np.where(np.abs(x) < 1e-6, 0.0, x)
+            v = x.reshape(n)
+            w = 1.0 / np.maximum(1.0, np.abs(v))
+            Jtrue = (A @ (dg(B @ (v * w))[:, None] * B * w[None, :]) + C)
+            fmag = float(np.max(np.abs(f(x)))) if m else 0.0
+            kw["adaptive"] = False
+            kw["richardson_iter"] = 6
         jw = JacobianWrapper(f, base_order=case["base_order"], flat=case["flat"], **kw)
         J = np.asarray(jw(x))
     except Exception as e:
@@ -127,7 +138,9 @@ def _check_fd(case):
         teff = 4 * 4 * np.finfo(np.float64).eps if tol is None else tol
         Jmax = float(np.max(np.abs(Jtrue))) if Jtrue.size else 0.0
         allowed = 100 * (teff + teff * Jmax) + 1e-8 * (Jmax + fmag / (1 + float(np.max(np.abs(x)))))
-        if phi == "linear":
+        if not case.get("adaptive", True):
+            allowed = 1e-5 * (Jmax + fmag / (1 + float(np.max(np.abs(x)))) + 1e-3)      # no tolerance control in this mode: gross errors only
+        elif phi == "linear":
             allowed = 1e-9 * (Jmax + fmag / (1 + float(np.max(np.abs(x))))) + 1e-13   # "to rounding for linear maps": at the stencil floor
         err = float(np.max(np.abs(J - Jcmp))) if J.size else 0.0
         if not err <= allowed:
@@ -136,7 +149,7 @@ def _check_fd(case):
             viols.append(V("fd_accuracy" if not transposed else "fd_layout", "JacobianWrapper(base_order={}, tol={}, flat={}) differs from the analytic Jacobian by {:.3e} (allowed {:.3e}) for f: {} -> {} ({}) at x = {}".format(
                 case["base_order"], tol, case["flat"], err, allowed, ins, outs, phi, case["x"]), sig, **attrs))
         metrics = {"fd_err/allowed": err / allowed}
-        return viols, dict(nontrivial=bool(m != n or len(ins) > 1 or len(outs) > 1), labels=["fd:" + phi, "fd:flat" if case["flat"] else "fd:tensor", "fd:order{}".format(case["base_order"])], metrics=metrics)
+        return viols, dict(nontrivial=bool(m != n or len(ins) > 1 or len(outs) > 1), labels=["fd:" + phi, "fd:flat" if case["flat"] else "fd:tensor", "fd:order{}".format(case["base_order"]), "fd:adaptive" if case.get("adaptive", True) else "fd:fixed_depth"], metrics=metrics)
     return viols, dict(nontrivial=bool(m != n or len(ins) > 1 or len(outs) > 1), labels=["fd:" + phi])
 
 
